@@ -637,13 +637,49 @@ class PteraTransformer(NodeTransformer):
             # assigned by Python, there is no variable to interact about
             return []
 
+    def visit_target(self, target):
+        """Visit the expressions inside of an assignment target.
+
+        The container and index of d[i] and the object of o.a are evaluated
+        like any other expression: they may contain bindings and suspension
+        points (d[(i := 1)] = 2, d[(yield)] = 3).
+        """
+        if isinstance(target, (ast.Tuple, ast.List)):
+            for entry in target.elts:
+                self.visit_target(entry)
+        elif isinstance(target, ast.Starred):
+            self.visit_target(target.value)
+        elif isinstance(target, ast.Attribute):
+            target.value = self.visit(target.value)
+        elif isinstance(target, ast.Subscript):
+            target.value = self.visit(target.value)
+            target.slice = self.visit(target.slice)
+        return target
+
+    def visit_header(self, node):
+        """Visit what a nested def or class evaluates in this function."""
+        node.decorator_list = [self.visit(d) for d in node.decorator_list]
+        if isinstance(node, ast.ClassDef):
+            node.bases = [self.visit(b) for b in node.bases]
+            for kw in node.keywords:
+                kw.value = self.visit(kw.value)
+        else:
+            node.args.defaults = [self.visit(d) for d in node.args.defaults]
+            node.args.kw_defaults = [
+                d and self.visit(d) for d in node.args.kw_defaults
+            ]
+        return node
+
     def visit_FunctionDef(self, node, root=False):
         if not root:
             # The def statement binds the name of the nested function
             name_node = ast.copy_location(
                 ast.Name(id=node.name, ctx=ast.Store()), node
             )
-            return [node, *self.generate_interactions(name_node)]
+            return [
+                self.visit_header(node),
+                *self.generate_interactions(name_node),
+            ]
 
         new_body = []
 
@@ -788,7 +824,10 @@ class PteraTransformer(NodeTransformer):
         name_node = ast.copy_location(
             ast.Name(id=node.name, ctx=ast.Store()), node
         )
-        return [node, *self.generate_interactions(name_node)]
+        return [
+            self.visit_header(node),
+            *self.generate_interactions(name_node),
+        ]
 
     def visit_For(self, node):
         new_body = self.generate_interactions(node.target)
@@ -805,7 +844,7 @@ class PteraTransformer(NodeTransformer):
 
         return ast.copy_location(
             ast.For(
-                target=node.target,
+                target=self.visit_target(node.target),
                 iter=self.visit(node.iter),
                 body=new_body,
                 orelse=self.visit_body(node.orelse),
@@ -824,7 +863,8 @@ class PteraTransformer(NodeTransformer):
                 items=[
                     ast.withitem(
                         context_expr=self.visit(item.context_expr),
-                        optional_vars=item.optional_vars,
+                        optional_vars=item.optional_vars
+                        and self.visit_target(item.optional_vars),
                     )
                     for item in node.items
                 ],
@@ -878,7 +918,7 @@ class PteraTransformer(NodeTransformer):
             x: int = _ptera_interact('x', int)
         """
         return self.make_interaction(
-            node.target,
+            self.visit_target(node.target),
             self._ann(node.annotation),
             node.value and self.visit(node.value),
             orig=node,
@@ -926,7 +966,8 @@ class PteraTransformer(NodeTransformer):
         if len(targets) > 1:
             return _decompose(targets, lambda value, i: value)
 
-        elif isinstance(targets[0], (ast.Tuple, ast.List)):
+        self.visit_target(targets[0])
+        if isinstance(targets[0], (ast.Tuple, ast.List)):
             # Let Python do the unpacking (any iterable, starred targets,
             # length checks), then interact for each name that was bound
             return [
